@@ -47,6 +47,16 @@ fn check_file(w: &[u8], names: &[Vec<u8>], marks: &[usize], c: &mut Choice, ever
         Some(s) => plan.iter().map(|q| queries::eval_stream(s, q)).collect(),
         None => vec![None; plan.len()],
     };
+    // the stand-alone ident parser on every prefix of the first 20 bytes: an error or the complete file's answer
+    let whole_ident = elf::file::parse_ident::<AnyEndian>(&w[..w.len().min(16)]).ok();
+    for l in 0..w.len().min(21) {
+        let r = guard(|| elf::file::parse_ident::<AnyEndian>(&w[..l])).map_err(|p| format!("parse_ident panicked on the {}-byte prefix of a {}-byte file: {}", l, w.len(), p))?;
+        if let Ok(x) = r {
+            if l < 16 || Some(x) != whole_ident {
+                return Err(format!("parse_ident on the {}-byte prefix answers Ok({:?}); on the complete file's ident it answers {:?}", l, x, whole_ident));
+            }
+        }
+    }
     for l in lengths_to_try(w.len(), marks, c, every_below) {
         let p = &w[..l];
         st.prefixes += 1;
